@@ -46,6 +46,7 @@ def setup(ctx):
     ctx.require("monitor", "defective_imports", 100)
     ctx.require("monitor", "roundtrip_hosts", 60)
     ctx.require("monitor", "roundtrip_stores_with_twin_names", 8)
+    ctx.require("monitor", "successful_imports_at_the_edges", 20)
     ctx.require("monitor", "roundtrip_store_sizes", 6)
     ctx.require("monitor", "syscall_injections", 10)
     ctx.require("monitor", "failed_then_next_sequences", 40)
@@ -660,6 +661,42 @@ def run_failed_then_next(ctx, tmp):
                     ctx.case(("failed-then-next", defect, pos, mode, nname, got == exp), True, sample={"defect": defect, "mode": mode, "next": nname, "rows": len(got)})
 
 
+def run_successful_imports(ctx, tmp):
+    """Imports that SUCCEED leave exactly the after-state - also at the edges of the domain: a file with no hosts at all
+    (the backup of an empty store) in replace mode empties the store and in merge mode changes nothing; a file that only
+    repeats what is already pinned; a file whose every entry conflicts and is declined."""
+    from pathlib import Path
+
+    for nstore in (0, 1, 3):
+        for fname, entries_of in (("no-hosts", lambda b: []), ("same-as-store", lambda b: [(f"{r[0]}:{r[1]}", {"hostname": r[0], "port": r[1], "fingerprint": r[2], "first_seen": r[3], "last_seen": r[3]}) for r in b]),
+                                  ("one-new", lambda b: [("new.example:1965", good_entry("new.example", 1965, 1)[1])]),
+                                  ("all-conflicting-declined", lambda b: [(f"{r[0]}:{r[1]}", {"hostname": r[0], "port": r[1], "fingerprint": fp(2) if r[2] != fp(2) else fp(1), "first_seen": r[3], "last_seen": r[3]}) for r in b])):
+            for merge in (True, False):
+                dbpath = os.path.join(tmp, "ok-imp.db")
+                if os.path.exists(dbpath):
+                    os.unlink(dbpath)
+                seed_store(dbpath, nstore)
+                before = dump(dbpath)
+                entries = entries_of(before)
+                f = os.path.join(tmp, "ok-imp.toml")
+                write_import(f, entries)
+                db = make_db(dbpath)
+                try:
+                    res = db.import_toml(Path(f), merge=merge, on_conflict=lambda *a: False)
+                except Exception as e:  # noqa: BLE001
+                    ctx.undecided(f"successful-imports:{fname}:raised:{type(e).__name__}")
+                    continue
+                got = dump(dbpath)
+                exp = model_import(before, entries, merge, update_conflicts=False)
+                mode = "merge" if merge else "replace"
+                ctx.count("monitor", "after_states_checked_against_model")
+                ctx.count("monitor", "successful_imports_at_the_edges")
+                wit = {"store_before": before, "file": fname, "entries_in_file": len(entries), "mode": mode, "import_returned": list(res) if isinstance(res, tuple) else str(res), "store_after": got, "expected_after": exp}
+                if sorted(got) != exp:
+                    ctx.violation(f"partial-state:op=import:mode={mode}:file={fname}:reported-success", f"the import returned {res!r}, yet the store holds {len(got)} rows where the {mode} of this file leaves {len(exp)}", wit)
+                ctx.case(("successful-import", nstore, fname, mode, len(got)), True, sample=wit)
+
+
 # --------------------------------------------------------------------------- round trip
 
 NAME_PARTS = ["example.org", "::1", "[::1]", "2001:db8::1", "a.b.c", "x:y", 'q"uote', "back\\slash", "ha#sh", "eq=uals", "[br]", "new\nline", "tab\there",
@@ -919,6 +956,8 @@ def run(ctx):
         run_roundtrip(ctx, tmp, rng)
         if ctx.mine(9) or ctx.nshards == 1:
             run_roundtrip_sizes(ctx, tmp)
+        if ctx.mine(10) or ctx.nshards == 1:
+            run_successful_imports(ctx, tmp)
         run_strace(ctx, tmp)
     finally:
         Injector.uninstall()
